@@ -6,7 +6,7 @@ REPO = os.environ.get("VERIF_REPO", "/repo")
 BUILD = os.environ.get("VERIF_BUILD", os.path.join(VERIF, "build"))
 VX = os.path.join(VERIF, "vx", "target", "release", "vx")
 
-DEFAULT_RENAMES = ("enumerate,chain,cloned,fold,any,sum,unzip,interleave,tuples,to_le_bytes,flat_map,by_ref,"
+DEFAULT_RENAMES = ("enumerate,chain,cloned,copied,fold,any,sum,unzip,interleave,tuples,to_le_bytes,flat_map,by_ref,"
                    "chunks,chunks_mut,chunks_exact,shr")
 
 
